@@ -27,7 +27,7 @@ Definition gap_ok (e : event) : bool :=
 
 Definition pcinv (p : pcs) (m : option nat) (h : list event) : Prop :=
   match p with
-  | PLeaveConn _ | PLeaveReq _ => True
+  | PLeaveConn a | PLeaveReq a => match a with LvExitOffer e => e = ERebalance | _ => True end
   | POffer e true => m = None
   | POffer e false => e = ERebalance /\ pending_fail h = false
   | PBackoff => m = None
@@ -36,7 +36,7 @@ Definition pcinv (p : pcs) (m : option nat) (h : list event) : Prop :=
   end.
 
 Definition Inv3 (p : pcs) (m : option nat) (h : list event) : Prop :=
-  mon_backoff h = true /\ mon_leave h = true /\ forallb gap_ok h = true /\ pcinv p m h.
+  mon_backoff h = true /\ mon_leave_full h = true /\ forallb gap_ok h = true /\ pcinv p m h.
 
 Definition Inv (s : state) : Prop := Inv3 (pc s) (mid s) (hist s).
 
@@ -162,14 +162,8 @@ Proof.
 Qed.
 
 (* ================= C15.4 leave on close ================= *)
-Theorem leave_holds : forall w ls s, run (init w) ls = Some s -> mon_leave (hist s) = true.
+Theorem leave_full_holds : forall w ls s, run (init w) ls = Some s -> mon_leave_full (hist s) = true.
 Proof. intros w ls s H. exact (proj1 (proj2 (inv_holds w ls s H))). Qed.
-
-Lemma mon_leave_app : forall post h, mon_leave (post ++ h) = true -> mon_leave h = true.
-Proof.
-  induction post as [|e t IH]; intros h H; cbn [app mon_leave] in H; [exact H|].
-  apply andb_true_iff in H. apply IH. exact (proj2 H).
-Qed.
 
 Lemma runexit_exists : forall h, existsb ev_is_runexit h = true -> exists x m, In (HRunExit x m) h.
 Proof.
@@ -198,22 +192,6 @@ Proof.
     + destruct (ev_is_leave m a); [reflexivity|].
       destruct a; try (apply IH; intros m' I; apply (N m'); right; exact I).
       exfalso. apply (N m0). left. reflexivity.
-Qed.
-
-Lemma mon_leave_spec : forall h, mon_leave h = true ->
-  (forall post x m pre, h = post ++ HRunExit x (Some m) :: pre ->
-     x = XOffer ERebalance \/
-     exists pre1 e pre2, pre = pre1 ++ e :: pre2 /\ ev_is_leave m e = true /\
-                         forall m', ~ In (HJoinReq m') pre1) /\
-  (forall post c pre, h = post ++ HCloseRet c :: pre -> exists x m, In (HRunExit x m) pre).
-Proof.
-  intros h M. split.
-  - intros post x m pre ->. apply mon_leave_app in M. cbn [mon_leave] in M.
-    apply andb_true_iff in M. destruct M as [M _].
-    destruct x as [|e|]; [right|destruct e; [left; reflexivity|right|right]|right];
-      cbn in M; apply left_since_join_spec in M; exact M.
-  - intros post c pre ->. apply mon_leave_app in M. cbn [mon_leave] in M.
-    apply andb_true_iff in M. destruct M as [M _]. cbn in M. apply runexit_exists; exact M.
 Qed.
 
 Lemma mon_leave_full_app : forall post h, mon_leave_full (post ++ h) = true -> mon_leave_full h = true.
@@ -247,49 +225,6 @@ Proof.
       * intros post c pre ->. exact (B (e :: post) c pre eq_refl).
 Qed.
 
-(* refutation directions: an exit holding m whose past has no leave attempt for m at all,
-   or whose newest leave attempt for m is older than a JoinGroup request *)
-Lemma mon_leave_full_refute : forall h,
-  (exists post x m pre, h = post ++ HRunExit x (Some m) :: pre /\
-     forall e, In e pre -> ev_is_leave m e = false) ->
-  mon_leave_full h = false.
-Proof.
-  intros h [post [x [m [pre [-> N]]]]].
-  destruct (mon_leave_full (post ++ HRunExit x (Some m) :: pre)) eqn:E; [|reflexivity].
-  apply mon_leave_full_spec in E. destruct E as [A _].
-  destruct (A post x m pre eq_refl) as [pre1 [e [pre2 [-> [L _]]]]].
-  rewrite (N e) in L; [discriminate|]. apply in_or_app. right. left. reflexivity.
-Qed.
-
-Lemma mon_leave_full_refute_stale : forall h,
-  (exists post x m pre, h = post ++ HRunExit x (Some m) :: pre /\ left_since_join m pre = false) ->
-  mon_leave_full h = false.
-Proof.
-  intros h [post [x [m [pre [-> N]]]]].
-  destruct (mon_leave_full (post ++ HRunExit x (Some m) :: pre)) eqn:E; [|reflexivity].
-  apply mon_leave_full_app in E. cbn [mon_leave_full] in E. apply andb_true_iff in E.
-  destruct E as [E _]. cbn in E. congruence.
-Qed.
-
-(* F5: the full reading is refuted by the model — sync answers RebalanceInProgress, Close:
-   run exits holding member 1, no LeaveGroup was attempted, and Close returns *)
-Theorem leave_full_refuted : exists ls s,
-  run (init 0) ls = Some s /\
-  In (HCloseRet 0) (hist s) /\
-  In (HRunExit (XOffer ERebalance) (Some 1)) (hist s) /\
-  (forall e, In e (hist s) -> ev_is_leave 1 e = false) /\
-  (exists post pre, hist s = post ++ HRunExit (XOffer ERebalance) (Some 1) :: pre /\
-                    left_since_join 1 pre = false) /\
-  mon_leave_full (hist s) = false.
-Proof.
-  exists f5_witness. eexists. split; [vm_compute; reflexivity|].
-  cbn [hist]. split; [cbn; tauto|]. split; [cbn; tauto|].
-  split; [|split; [|vm_compute; reflexivity]].
-  - intros e I. cbn in I.
-    repeat (destruct I as [<-|I]; [reflexivity|]). destruct I.
-  - exists [HCloseRet 0]. eexists. split; [reflexivity|]. vm_compute. reflexivity.
-Qed.
-
 (* run exits holding a member id only on the ErrGroupClosed exit (after the leave) and on
    the exit from the error offer after RebalanceInProgress (the F5 gap) *)
 Theorem leave_only_gap : forall w ls s, run (init w) ls = Some s ->
@@ -301,21 +236,29 @@ Proof.
   destruct x as [|e|]; [right; reflexivity|destruct e; [left; reflexivity|discriminate G|discriminate G]|discriminate G].
 Qed.
 
-(* on the ErrGroupClosed exit the leave of the current membership was attempted (sent, or
-   coordinator unreachable): no JoinGroup request lies between it and the exit *)
-Theorem leave_closed_exit : forall w ls s, run (init w) ls = Some s ->
-  forall post m pre, hist s = post ++ HRunExit XClosed (Some m) :: pre ->
+(* whenever run exits holding a member id, a leave of the current membership was attempted
+   (sent, or coordinator unreachable): no JoinGroup request lies between it and the exit *)
+Theorem leave_exit : forall w ls s, run (init w) ls = Some s ->
+  forall post x m pre, hist s = post ++ HRunExit x (Some m) :: pre ->
   exists pre1 e pre2, pre = pre1 ++ e :: pre2 /\ ev_is_leave m e = true /\
                       forall m', ~ In (HJoinReq m') pre1.
 Proof.
-  intros w ls s H post m pre E.
-  destruct (proj1 (mon_leave_spec _ (leave_holds w ls s H)) post XClosed m pre E) as [D|D];
-    [discriminate D|exact D].
+  intros w ls s H. exact (proj1 (proj1 (mon_leave_full_spec _) (leave_full_holds w ls s H))).
 Qed.
 
 (* Close returns only after run has exited *)
 Theorem close_after_exit : forall w ls s, run (init w) ls = Some s ->
   forall post c pre, hist s = post ++ HCloseRet c :: pre -> exists x m, In (HRunExit x m) pre.
 Proof.
-  intros w ls s H. exact (proj2 (mon_leave_spec _ (leave_holds w ls s H))).
+  intros w ls s H. exact (proj2 (proj1 (mon_leave_full_spec _) (leave_full_holds w ls s H))).
+Qed.
+
+(* the former F5 scenario (sync answers RebalanceInProgress, nobody calls Next, Close): run
+   now leaves the group before it exits *)
+Lemma f5_scenario_leaves : exists s,
+  run (init 0) f5_scenario = Some s /\ mon_leave_full (hist s) = true /\
+  In (HLeaveReq 1) (hist s) /\ In (HCloseRet 0) (hist s).
+Proof.
+  eexists. split; [vm_compute; reflexivity|]. cbn [hist].
+  split; [vm_compute; reflexivity|]. split; cbn; tauto.
 Qed.
